@@ -11,7 +11,7 @@ Each such way is an ordinary linear command list; its later behaviour is compare
 with a twin world that never opened the batch.
 """
 from ..core import HarnessError, Stats, Violation, deep, hx, unhx
-from ..hgen import HistoryGen, make_pool, make_values, probe_keys
+from ..hgen import HistoryGen, make_pool, make_values, probe_keys, rare_huge
 from ..hworld import ClientAbort, HWorld
 
 ID = "C05"
@@ -286,7 +286,7 @@ def execute(case, st):
 
 
 def generate(rng):
-    pool = make_pool(rng, size=rng.choice([3, 4, 5, 6, 8, 10, 12, 16]))
+    pool = make_pool(rng, size=rng.choice([3, 4, 5, 6, 8, 10, 12, 16]), style=rare_huge(rng, 0.01))
     values = make_values(rng)
     probes = probe_keys(rng, pool, extra=2)
     prune = rng.random() < 0.6
